@@ -1340,6 +1340,8 @@ class Symex:
             for x in self.iterate(args[0], node):
                 out.extend(self.iterate(x, node))
             return out
+        if name == "dict.fromkeys" and len(args) in (1, 2) and not isinstance(args[0], T):
+            return {k: (args[1] if len(args) == 2 else None) for k in self.iterate(args[0], node)}
         if short == "reduce" and len(args) in (2, 3) and not isinstance(args[1], T):
             seq = list(self.iterate(args[1], node))
             if len(args) == 3:
